@@ -46,6 +46,7 @@ type TMOp struct {
 	LastUpdate string     `json:"last_update,omitempty"` // "" | recent | old
 	StableRev  string     `json:"stable_rev,omitempty"`
 	CanaryRev  string     `json:"canary_rev,omitempty"`
+	Fail       bool       `json:"fail,omitempty"` // the gateway provider's read of the Ingress fails once during this call
 }
 
 type TMInput struct {
@@ -84,7 +85,16 @@ func (trafficmgrEngine) Decode(raw json.RawMessage) (any, error) {
 // writeLog records every mutating call in order.
 type writeLog struct {
 	client.Client
-	log []string
+	log         []string
+	failIngress bool // fail the next Get of an Ingress (fault injection)
+}
+
+func (w *writeLog) Get(ctx context.Context, key client.ObjectKey, obj client.Object, opts ...client.GetOption) error {
+	if _, ok := obj.(*netv1.Ingress); ok && w.failIngress {
+		w.failIngress = false
+		return fmt.Errorf("injected: the API server is unavailable")
+	}
+	return w.Client.Get(ctx, key, obj, opts...)
 }
 
 func objKind(o client.Object) string {
@@ -254,6 +264,7 @@ func (trafficmgrEngine) Run(inAny any) any {
 				return
 			}
 			c := tmContext(in, op)
+			cli.failIngress = op.Fail
 			before := c.LastUpdateTime
 			var ok bool
 			var err error
@@ -284,6 +295,7 @@ func (trafficmgrEngine) Run(inAny any) any {
 			}
 			step.Touched = c.LastUpdateTime != before
 		}()
+		cli.failIngress = false
 		step.Writes = append([]string{}, cli.log...)
 		step.Net = tmProject(base)
 		for _, p := range grace.VerifPending() {
@@ -346,7 +358,7 @@ func (trafficmgrEngine) Coq(inAny any, obsAny any) string {
 		kind := map[string]string{"do": "KDo", "finalising": "KFinalising", "restore_stable": "KRestoreStable", "patch_stable": "KPatchStable",
 			"restore_gateway": "KRestoreGateway", "remove_canary": "KRemoveCanary", "route_new": "KRouteNew"}[o.Kind]
 		return emit.App("TCall", kind, emit.App("Build_tctx", emit.Bool(in.Refs), emit.Bool(in.ZeroGrace), coqTMStrategy(o.Strategy),
-			emit.Str(o.StableRev), emit.Str(o.CanaryRev), lu, "true"))
+			emit.Str(o.StableRev), emit.Str(o.CanaryRev), lu, "true", emit.Bool(o.Fail)))
 	})
 	steps := emit.ListOf(obs.Steps, func(s TMStep) string {
 		pend := emit.ListOf(s.Pending, func(p string) string { return tmActionNames[p] })
@@ -409,6 +421,7 @@ func (trafficmgrEngine) Gen(r *rand.Rand, idx int, tier string) any {
 				op.CanaryRev = ""
 			}
 			op.LastUpdate = pick(r, "", "old", "old", "old", "recent")
+			op.Fail = in.Refs && chance(r, 12) && (k == "do" || k == "finalising" || k == "restore_gateway" || k == "route_new")
 		}
 		in.Ops = append(in.Ops, op)
 	}
